@@ -1,12 +1,16 @@
 /-
   C06 — Gang scheduling bookkeeping (task-group counters and the replacement guard).
-  The clauses about node / queue / user usage after a confirmed swap are part of the conservation theorems (C03) and
-  are monitored on the real core (CoreState.gangOK, conserved); here: the per task group counters and the
-  replacement-size guard.
+  Here: the per task group counters, the replacement-size guard, and — about `Core.swapConfirm`, the stepped model of
+  partition.removeAllocation(PLACEHOLDER_REPLACED) / Application.ReplaceAllocation / Node.ReplaceAllocation
+  (YkModel/CoreOps2.lean, compared with the real core after every confirmation) — "after the shim confirms the swap the
+  placeholder is gone and node and queue usage reflect the real allocation (never more than before)".  User usage is
+  tracked outside the `Core` ledgers (C05, monitored on the real core: CoreState.usageOK).
 -/
 import YkProofs.Reserve
+import YkProofs.Core2Swap
+import YkProofs.Core2Example
 namespace Yk.C06
-open Yk Yk.Res
+open Yk Yk.Res Yk.Core
 
 /-- Per task group the number reported as replaced never exceeds the number of placeholders — in the stronger internal
     form replaced + timed out (+ cancelled + still pending + still allocated) = count, for every history. -/
@@ -23,5 +27,64 @@ theorem swap_not_larger (ph real : Res) (hp : wf ph = true) (hr : wf real = true
   swap_guard_iff ph real hp hr
 
 example : hasNegativeValue (some (subX [("cpu", 4)] [("cpu", 2), ("gpu", 1)])) = true := by decide
+
+/-! ### the confirmed swap
+
+`SwapCase s app phKey a p r`: the confirmation names the bound placeholder `p` of application `a`, linked to the real
+allocation `r`.  `SwapOK s app phKey`: the placeholder is listed by its (registered) node with the size the application
+books, `r` is a proper replacement (`ReplOK`: allocated, not yet bound, not a placeholder) and not larger than `p`. -/
+
+/-- After the confirmed swap the placeholder is gone: the application no longer lists it as an allocation and its node no
+    longer lists it. -/
+theorem swap_placeholder_gone (s : Core) (app phKey : String) (a : CApp) (p r : CItem) (hw : CoreWF s)
+    (hok : SwapOK s app phKey) (hc : SwapCase s app phKey a p r) :
+    (∀ a1, (s.swapConfirm app phKey).findApp app = some a1 → ∀ x ∈ a1.items, x.key = phKey → x.bound = false) ∧
+    (∀ n', (s.swapConfirm app phKey).findNode p.node = some n' → ∀ x ∈ n'.allocs, x.key ≠ phKey) :=
+  ⟨swapConfirm_placeholder_unbound s app phKey a p r hw hok hc, (swapConfirm_placeholder_gone s app phKey a p r hok hc).2⟩
+
+/-- Node usage reflects the real allocation, never more than before: the placeholder's node is charged the real
+    allocation instead of the placeholder (same node) or no longer charged the placeholder (the real allocation was
+    parked on another node when the swap started). -/
+theorem swap_node_usage (s : Core) (app phKey : String) (a : CApp) (p r : CItem) (hw : CoreWF s)
+    (hok : SwapOK s app phKey) (hc : SwapCase s app phKey a p r) (n n' : CNode)
+    (hn : s.findNode p.node = some n) (hn' : (s.swapConfirm app phKey).findNode p.node = some n') (k : String) :
+    n'.allocated.getD k = n.allocated.getD k - p.res.getD k + (if r.node = p.node then r.res.getD k else 0) ∧
+    n'.allocated.getD k ≤ n.allocated.getD k :=
+  swapConfirm_node_usage s app phKey a p r hw hok hc n n' hn hn' k
+
+/-- Queue usage reflects the real allocation, never more than before: every queue on the application's chain gives back
+    the size difference, the other queues are untouched (while the application stays in the partition). -/
+theorem swap_queue_usage (s : Core) (app phKey : String) (a : CApp) (p r : CItem) (hw : CoreWF s)
+    (hok : SwapOK s app phKey) (hc : SwapCase s app phKey a p r) (hlive : (replApp p r a).live = true) :
+    ∃ F : CQueue → CQueue, (s.swapConfirm app phKey).queues = s.queues.map F ∧ ∀ q ∈ s.queues,
+      (F q).path = q.path ∧
+      (under a.queue q.path = true → ∀ k,
+        (F q).allocated.getD k = q.allocated.getD k - (p.res.getD k - r.res.getD k) ∧
+        (F q).allocated.getD k ≤ q.allocated.getD k) ∧
+      (under a.queue q.path = false → (F q).allocated = q.allocated) :=
+  swapConfirm_queue_usage s app phKey a p r hw hok hc hlive
+
+/-- … and all ledgers still agree afterwards (application = Σ items, queues = Σ applications, node = Σ allocations).
+    Explicit non-goal: a placeholder that is RESIZED below its replacement while the swap is in flight (UpdateAllocation of
+    the placeholder's key between tryPlaceholderAllocate and the shim's confirmation).  The code does not re-check the
+    size guard at confirmation time and does not charge the queue the difference, so the books break there; that stream
+    is outside the legal shim behaviour (the shim is deleting that pod) and the generator does not produce it.  It is
+    exactly the case `SwapOK.notLarger` excludes. -/
+theorem swap_books (s : Core) (app phKey : String) (hw : CoreWF s) (hb : Books s) (hok : SwapOK s app phKey) :
+    Books (s.swapConfirm app phKey) :=
+  (swapConfirm_props s app phKey hw hb hok).1
+
+/-- Without the node-side condition the clause is false of the code: a placeholder whose node is not registered is
+    "replaced" without the node and queue update (witness `swapW`). -/
+theorem swap_books_refuted_without_node :
+    CoreWF swapW ∧ Books swapW ∧ ¬ Books (swapW.swapConfirm "app" "ph") :=
+  let ⟨h1, h2, _, h4⟩ := swapConfirm_books_refuted_without_node; ⟨h1, h2, h4⟩
+
+/-- non-vacuity: in the example history (YkProofs/Core2Example.lean) the state before the confirmation meets `SwapOK`
+    (placeholder `p1` of cpu 4 bound on `n1`, linked to the real allocation `r1` of cpu 2 on the same node), and the
+    confirmation leaves cpu 2 on the node and in both queues -/
+example : SwapOK Example.s6 "app" "p1" ∧ (Example.s7.nodes.map (·.allocated)) = [[("cpu", 2)]] ∧
+    (Example.s7.queues.map (·.allocated)) = [[("cpu", 2)], [("cpu", 2)]] :=
+  ⟨swapOK_of_b (by decide +kernel), Example.s7_node, Example.s7_queues⟩
 
 end Yk.C06
